@@ -24,7 +24,7 @@ static std::vector<Decl> declarations()
                         D.items.push_back(t);
                         if (company)
                         {
-                            D.items.push_back(Item::tog("ugg", "u", true));
+                            D.items.push_back(Item::tog("note", "u", true)); // a name that begins with "no" but not with "no-"
                             D.items.push_back(Item::opt("opt", "o"));
                         }
                         D.accepted = 1;
@@ -36,7 +36,7 @@ static std::vector<Decl> declarations()
 static const std::vector<std::string>& alphabet()
 {
     static const std::vector<std::string> a = { "--tog", "-t",       "-tt", "-tu", "-ut",     "-ttu", "--no-tog",
-                                                "--ugg", "--no-ugg", "-u",  "x",   "--opt=x", "-utt", "-tut" };
+                                                "--note", "--no-note", "-u",  "x",   "--opt=x", "-utt", "-tut" };
     return a;
 }
 
